@@ -52,6 +52,21 @@ def run(e: Engine, rep: Report):
     rep.rule('B6', 'no write to a per-recipient reply on a path before the '
              '_split_by_reply call that groups them by equality')
     b6(e, rep)
+    rep.rule('B7', 'a permanent failure of a message with a sender '
+             'produces its bounce: every way through _perm_fail that does '
+             'not hand self._bounce to the pool has seen the sender test '
+             'negative (no other reason suppresses the bounce)')
+    b7(e, rep)
+    rep.rule('B8', 'what is handed to a bouncer is not changed afterwards: '
+             '_perm_fail only SPAWNS the bounce, so an envelope (or the '
+             'envelope _split_by_reply was given) that is written to after '
+             'the call is read by the bounce greenlet in its later state')
+    b8(e, rep)
+    rep.rule('B9', 'the assembled report is parsed as it was assembled: '
+             'the argument of self.parse() in Bounce._build_message is the '
+             'buffer\'s value itself, not a transformation of it (the '
+             'embedded original is part of it)')
+    b9(e, rep)
 
 
 def b5(e: Engine, rep: Report):
@@ -864,3 +879,157 @@ def b6(e: Engine, rep: Report):
                       reason='no write to a reply before the grouping call')
     if n < 2:
         rep.error('anchor vanished: callers of _split_by_reply (%d < 2)' % n)
+
+
+# ---------------------------------------------------------------------- B7
+def b7(e: Engine, rep: Report):
+    ctx = e.method_ctx(QUEUE, '_perm_fail')
+    g = e.build(ctx, raises=lambda b, n, r: set(),
+                inline=e.inline_same_self(
+                    deny=['_remove', '_pool_spawn', '_pool_run',
+                          '_pool_imap', '_bounce']), max_depth=3)
+    where = ctx.func.qname
+    rep.functions.add(where)
+    envp = ctx.func.params[2] if len(ctx.func.params) > 2 else 'envelope'
+    sender = '%s#%d.sender' % (envp, g.entry.frame.id)
+    spawns = [n for n in g.nodes if (n.kind == 'call' and any(
+        ast.unparse(a).endswith('._bounce') for a in n.ast.args)) or (
+        n.kind in ('call', 'call_enter') and e.call_name(n) == '_bounce')]
+    if not spawns:
+        rep.error('anchor vanished: bounce spawn in _perm_fail')
+        return
+    from ..facts import atoms_of_test
+
+    def step(x, label, st):
+        if x in spawns:
+            return 'bounced'
+        if x.kind == 'test' and label in ('T', 'F') and st == 'pending':
+            for p, k in atoms_of_test(x.ast, label == 'T', x.frame):
+                if k == sender and not p:
+                    return 'null'
+                if k in ("%s == ''" % sender, 'len(%s) == 0' % sender,
+                         '%s is None' % sender) and p:
+                    return 'null'
+        return st
+    rep.evaluations += 1
+    pth = dataflow.typestate_witness(
+        g, 'pending', step, lambda x, st: x is g.exit and st == 'pending')
+    rep.check(pth is None, 'B7', where,
+              'every failure with a sender is bounced',
+              '_perm_fail can return without having spawned the bounce '
+              'although the sender is not null: a message with a real '
+              'return path fails permanently and nobody is told',
+              loc=ctx.func.loc(), reason='only the null-sender branch '
+              'skips the spawn',
+              witness=dataflow.render_path(pth, 12) if pth else None)
+
+
+# ---------------------------------------------------------------------- B8
+def b8(e: Engine, rep: Report):
+    c = common.merged_class(e, QUEUE)
+    bnames = common.bouncers(e)
+    n_fn = 0
+    for mname, m in sorted(c.methods.items()):
+        if mname in bnames:
+            continue
+        calls_b = [x for x in walk_own(m.node) if isinstance(x, ast.Call) and
+                   isinstance(x.func, ast.Attribute) and
+                   isinstance(x.func.value, ast.Name) and
+                   x.func.value.id == 'self' and x.func.attr in bnames]
+        if not calls_b:
+            continue
+        n_fn += 1
+        ctx = Ctx(m, QUEUE)
+        g = e.build(ctx, raises=lambda b, n, r: set())
+        rep.functions.add(m.qname)
+        # locals handed over: arguments of bouncer calls, and what
+        # _split_by_reply was given when its groups are bounced
+        handed = {}
+        for n in g.calls():
+            nm = e.call_name(n)
+            if nm in bnames or nm == '_split_by_reply':
+                for a in n.ast.args:
+                    if isinstance(a, ast.Name):
+                        handed.setdefault(path_of(a, n.frame), []).append(n)
+        for w in g.of_kind('stmt'):
+            tg = []
+            if isinstance(w.ast, ast.Assign):
+                tg = w.ast.targets
+            elif isinstance(w.ast, ast.AugAssign):
+                tg = [w.ast.target]
+            elif isinstance(w.ast, ast.Delete):
+                tg = w.ast.targets
+            for t in tg:
+                b = t
+                while isinstance(b, (ast.Attribute, ast.Subscript)):
+                    b = b.value
+                if t is b or not isinstance(b, ast.Name):
+                    continue
+                pth_name = path_of(b, w.frame)
+                for h in handed.get(pth_name, []):
+                    # a write that a hand-over of the same object precedes,
+                    # with no re-binding of the local in between
+                    rebinds = [r for r in g.of_kind('stmt')
+                               if isinstance(r.ast, ast.Assign) and any(
+                                   isinstance(t2, ast.Name) and
+                                   path_of(t2, r.frame) == pth_name
+                                   for t2 in r.ast.targets)]
+                    rebinds += [r for r in g.of_kind('iter') if any(
+                        isinstance(t2, ast.Name) and
+                        path_of(t2, r.frame) == pth_name
+                        for t2 in ast.walk(r.ast.target))]
+                    pth = dataflow.find_path(
+                        g, h, lambda x: x is w,
+                        avoid=lambda x: x in rebinds,
+                        edge_ok=lambda a, l, s2: not isinstance(l, tuple))
+                    if not pth or len(pth) < 2:
+                        continue
+                    rep.evaluations += 1
+                    rep.bad('B8', m.qname, 'write to `%s` after it was '
+                            'handed on' % ast.unparse(t),
+                            '`%s` is assigned after `%s`: the bounce is '
+                            'only spawned there and is built later, from '
+                            'the object as it is then - it names other '
+                            'recipients than the ones that failed' % (
+                                ast.unparse(t), h.text(50)), loc=w.loc(),
+                            witness=dataflow.render_path(pth, 10))
+    rep.evaluations += 1
+    if n_fn < 2:
+        rep.error('anchor vanished: callers of the bouncers (%d < 2)' % n_fn)
+    else:
+        rep.ok('B8', QUEUE, 'callers of the bouncers looked at',
+               reason='%d functions' % n_fn)
+
+
+# ---------------------------------------------------------------------- B9
+def b9(e: Engine, rep: Report):
+    ctx = e.method_ctx(BOUNCE, '_build_message')
+    g = e.build(ctx, raises=lambda b, n, r: set(),
+                inline=e.inline_same_self(), max_depth=3)
+    where = ctx.func.qname
+    rep.functions.add(where)
+    parses = [n for n in g.nodes if n.kind in ('call', 'call_enter') and
+              e.call_name(n) == 'parse' and n.frame is g.entry.frame and
+              isinstance(n.ast.func, ast.Attribute) and
+              isinstance(n.ast.func.value, ast.Name) and
+              n.ast.func.value.id == 'self' and n.ast.args]
+    if not parses:
+        rep.error('anchor vanished: self.parse(...) in _build_message')
+        return
+    for n in parses:
+        rep.evaluations += 1
+        x, fr = common.origin(g, n.ast.args[0], n.frame)
+        ok = isinstance(x, ast.Call) and isinstance(x.func, ast.Attribute) \
+            and x.func.attr in ('getvalue', 'join', 'getbuffer', 'tobytes')
+        if isinstance(x, ast.Call) and isinstance(x.func, ast.Name) and \
+                x.func.id == 'bytes' and len(x.args) == 1:
+            y, _ = common.origin(g, x.args[0], fr)
+            ok = isinstance(y, ast.Call) and \
+                isinstance(y.func, ast.Attribute) and \
+                y.func.attr in ('getvalue', 'join', 'getbuffer', 'tobytes')
+        rep.check(ok, 'B9', where, 'the report is parsed as assembled',
+                  'self.parse() is given `%s`: a transformation applied to '
+                  'the assembled report also rewrites the original message '
+                  'embedded in it (it is no longer the failed message as '
+                  'it was)' % ' '.join(ast.unparse(n.ast.args[0]).split())[:60],
+                  loc=n.loc(), reason='getvalue() / join of the parts')
